@@ -121,7 +121,7 @@ type C14 struct{ svc }
 func init() { register(&C14{svc{base: base{id: "C14", level: "fault_enumeration"}, sysW: -1}}) }
 
 func (c *C14) Rule() string {
-	return "one run = up to 3 start/stop cycles of the real server.Run on the same two simulated addresses with 0..2 prove requests in flight; the stop request is a scheduler action placed at a chosen scheduler step (bare start/stop: runs 0..1199 enumerate every stop step 0..119 x starvation victim 0..8 + first-enabled; afterwards and with requests: tape-chosen positions under uniform / sticky / PCT / starve-one scheduling), followed by AwaitStop and an immediate re-bind of both addresses; evaluations = start/stop cycles completed; non-trivial = stop landed while at least two tasks were enabled or a request was in flight; distinct = (stop step bucket, sites at which tasks were parked when stop was requested, strategy)"
+	return "one run = up to 3 start/stop cycles of the real server.Run on the same two simulated addresses with 0..2 prove requests in flight; the stop request is a scheduler action placed at a chosen scheduler step (bare start/stop: runs 0..1199 enumerate every stop step 0..119 x starvation victim 0..8 + first-enabled; afterwards and with requests: tape-chosen positions under uniform / sticky / PCT / starve-one scheduling), followed by AwaitStop and an immediate re-bind of both addresses; evaluations = start/stop cycles completed; non-trivial = stop landed while at least two tasks were enabled or a request was in flight; distinct = (stop step bucket, sites at which tasks were parked when stop was requested, strategy); a quarter of the clients reset their connection at a tape-chosen moment after their request was delivered (nothing is owed to them, later stops must still complete)"
 }
 func (c *C14) Plan(tier string) engine.Plan {
 	if tier == "thorough" {
